@@ -76,7 +76,7 @@ impl DeltaId {
     pub fn from(s: &str) -> Result<DeltaId> {
         match DELTA_ID.captures(s) {
             Some(r) => Ok(DeltaId(
-                r.name("index").unwrap().as_str().parse::<u32>().unwrap(),
+                r.name("index").unwrap().as_str().parse::<u32>()?,
                 r.name("digest").unwrap().as_str().to_string(),
             )),
             None => bail!("invalid_deltaid_string: {}", s),
@@ -2378,12 +2378,12 @@ impl Melda {
                 .ok_or_else(|| anyhow!("packs_not_an_array"))?;
             // Collect identifiers
             if !packs.is_empty() {
-                b_packs = Some(
-                    packs
-                        .iter()
-                        .map(|p| p.as_str().unwrap().to_string())
-                        .collect(),
-                );
+                let mut ps = BTreeSet::new();
+                for p in packs {
+                    let s = p.as_str().ok_or_else(|| anyhow!("pack_not_string"))?;
+                    ps.insert(s.to_string());
+                }
+                b_packs = Some(ps);
             }
         }
 
